@@ -95,7 +95,7 @@ def _edge_leaves(cfg, loop, edge):
     return reach is not None and loop.header not in reach
 
 
-def feasible_reach(cfg, edge=None, avoid=(), stop=(), start_block=None):
+def feasible_reach(cfg, edge=None, avoid=(), stop=(), start_block=None, init=None):
     """blocks reachable from the target of `edge` (or from the successors of `start_block`), never entering `avoid`, not continuing
     past `stop`, on paths that are feasible w.r.t. the enum variants assigned along the way; None when the walk is too large
     (callers must then assume everything)"""
@@ -109,6 +109,8 @@ def feasible_reach(cfg, edge=None, avoid=(), stop=(), start_block=None):
         stack = [(dst, start)] if dst not in avoid else []
     else:
         st0 = _flow_block(blocks, start_block, {})
+        if init:
+            st0.update(init)      # what the caller assumes about the result of start_block's call (e.g. the write succeeded)
         stack = [(s2, st0) for s2 in _feasible_succ(cfg, blocks, start_block, st0) if s2 not in avoid]
     steps = 0
     while stack:
@@ -623,7 +625,9 @@ def _readb(cfg, du, loop, t, bid):
             if chain is not None:
                 chain = chain + [v[3]]
                 empty_when = True
-        if empty_when is None or not all(fresh_at(cb) for cb in chain):
+        # a definition of the chain from which the test cannot be reached at all (a second `x = &buffer` on the way to a return)
+        # never supplies the tested value
+        if empty_when is None or not all(fresh_at(cb) for cb in chain if cb == sb or sb in cfg.reachable_from(cb)):
             continue
         for val, tb in st["targets"]:
             edge = (sb, tb) if (bool(val) == empty_when) else (sb, st["otherwise"])
